@@ -28,6 +28,15 @@ type C03Case struct {
 	// family, n) at sizes n and 4n and fed in tiny pieces (Entry: write1 |
 	// reader3 | decoder3); Data is unused
 	Scale *C03Scale `json:"scale,omitempty"`
+	// Again: the SAME parser or decoder is used once more after the first input
+	// ended (with whatever outcome): a parser gets these bytes through the same
+	// method, a pull decoder is polled three more times. Only "returns without
+	// panic" is required of that second use.
+	Again *C03Again `json:"again,omitempty"`
+}
+
+type C03Again struct {
+	Data []byte `json:"data"`
 }
 
 type C03Scale struct {
@@ -281,6 +290,11 @@ func checkC03(ci any, info *CaseInfo) string {
 	if o.AllocB > bound {
 		return fmt.Sprintf("%s: allocated %d bytes for %d input bytes (bound %d): allocation out of proportion to the input", desc, o.AllocB, len(c.Data), bound)
 	}
+	if c.Again != nil {
+		if msg := c03SecondUse(cd, c, info); msg != "" {
+			return fmt.Sprintf("%s: %s", desc, msg)
+		}
+	}
 	// truncation
 	if endAware && needsMoreInput(c.Format, c.Data) {
 		info.Class("truncated_input")
@@ -290,6 +304,83 @@ func checkC03(ci any, info *CaseInfo) string {
 		if finalErr == io.EOF {
 			return fmt.Sprintf("%s: the input ends in the middle of a value but the decoder reports a clean io.EOF", desc)
 		}
+	}
+	return ""
+}
+
+// c03SecondUse: an instance that has been through c.Data (whatever the outcome)
+// is used again. A hang is caught by the watchdog, a panic is reported here.
+func c03SecondUse(cd *codec, c *C03Case, info *CaseInfo) string {
+	type methods interface {
+		Parse([]byte) error
+		ParseString(string) error
+		Write([]byte) (int, error)
+	}
+	cnt := &model.Counter{Limit: 4*(len(c.Data)+len(c.Again.Data)) + 128}
+	data := append([]byte{}, c.Data...)
+	again := append([]byte{}, c.Again.Data...)
+	chunks := cloneChunks(gen.Split(c.Data, c.Cuts))
+	var run func()
+	switch c.Entry {
+	case "parse", "parsestring", "write":
+		p, ok := cd.NewParser(cnt).(methods)
+		if !ok {
+			return "harness: parser lacks Parse/ParseString/Write"
+		}
+		run = func() {
+			var first error
+			switch c.Entry {
+			case "parse":
+				first = p.Parse(data)
+				_ = p.Parse(again)
+			case "parsestring":
+				first = p.ParseString(string(data))
+				_ = p.ParseString(string(again))
+			default:
+				for _, ch := range chunks {
+					if _, first = p.Write(ch); first != nil {
+						break
+					}
+				}
+				_, _ = p.Write(again)
+			}
+			if first != nil {
+				info.Class("second_use:after_error")
+			} else {
+				info.Class("second_use:after_success")
+			}
+		}
+	case "bytesdecoder", "decoder":
+		bs := c.BufSize
+		if bs <= 0 {
+			bs = 64
+		}
+		var dec pullDecoder
+		if c.Entry == "bytesdecoder" {
+			dec = cd.NewBytesDecoder(data, cnt)
+		} else {
+			dec = cd.NewDecoder(&chunkReader{chunks: chunks, eofWithData: c.EOFData}, bs, cnt)
+		}
+		run = func() {
+			var first error
+			for i := 0; i <= len(data)+2 && first == nil; i++ {
+				first = dec.Next()
+			}
+			for i := 0; i < 3; i++ {
+				_ = dec.Next()
+			}
+			if first != nil && first != io.EOF {
+				info.Class("second_use:after_error")
+			} else {
+				info.Class("second_use:after_success")
+			}
+		}
+	default:
+		return ""
+	}
+	o := guardAlloc(func() error { run(); return nil })
+	if o.Panicked() {
+		return fmt.Sprintf("second use of the same instance (again=%q): panic: %v\n%s", trunc(again), o.Panic, o.Stack)
 	}
 	return ""
 }
@@ -435,6 +526,19 @@ func drawC03(t *rapid.T) any {
 	if c.Entry == "decoder" {
 		c.BufSize = rapid.SampledFrom([]int{1, 2, 3, 7, 16, 64, 4096}).Draw(t, "bufsize")
 	}
+	if c.Entry != "parsereader" && rapid.IntRange(0, 2).Draw(t, "again") > 0 {
+		c.Again = &C03Again{}
+		switch rapid.IntRange(0, 3).Draw(t, "againw") {
+		case 0:
+			c.Again.Data = append([]byte{}, c.Data...)
+		case 1:
+			c.Again.Data = validDoc(t, c.Format, true).Bytes
+		case 2:
+			c.Again.Data = []byte(rapid.SampledFrom(c03Hostile[c.Format]).Draw(t, "again_hostile"))
+		default:
+			c.Again.Data = rapid.SliceOfN(rapid.Byte(), 0, 8).Draw(t, "again_rnd")
+		}
+	}
 	return c
 }
 
@@ -443,7 +547,7 @@ type gen2Span struct{}
 func init() {
 	register(&Property{
 		ID:    "C03",
-		Rule:  "inputs: random bytes; hostile constants from the statement (CBOR tag/half float/minors 28-30/lengths 2^63..2^64-1, UBJSON bad length markers/unterminated containers/$N, JSON broken escapes and lone surrogates) alone, with random tails or spliced into valid documents; every proper prefix of valid own/foreign documents; 1-2 byte-level mutations of valid documents (bit flip, insert, delete, overwrite, hostile length fields); long concatenations for the linear bound x chunkings x entry points {Parse, ParseString, ParseReader, Write, NewBytesDecoder+Next, NewDecoder+Next with buffer sizes 1..4096}; oracle = no panic, no hang (watchdog), Next loop <= len+2 calls, TotalAlloc <= 64KiB+buf+64*len, ParseString leaves its argument intact, and inputs the reference decoder classifies as 'needs more input' must end in an error other than io.EOF at every end-aware entry point; deterministic part: every prefix (incl. empty and full) of a fixed set of valid documents and every hostile constant x all 6 entry points; non-trivial = at least one event delivered or input >= 2 bytes; distinct by case hash; scaling probes (deterministic): 21 single-construct document families (runs of backslashes, escapes, digits, whitespace, nesting, members, no-ops, long strings/keys/byte strings ...) at 30 KB and 120 KB fed byte-wise through Write, through ParseReader in 3-byte reads and through a pull decoder with a 3-byte buffer; a violation needs more than 1 s of process CPU time for the larger input AND more than 8x the CPU time of the smaller one",
+		Rule:  "inputs: random bytes; hostile constants from the statement (CBOR tag/half float/minors 28-30/lengths 2^63..2^64-1, UBJSON bad length markers/unterminated containers/$N, JSON broken escapes and lone surrogates) alone, with random tails or spliced into valid documents; every proper prefix of valid own/foreign documents; 1-2 byte-level mutations of valid documents (bit flip, insert, delete, overwrite, hostile length fields); long concatenations for the linear bound x chunkings x entry points {Parse, ParseString, ParseReader, Write, NewBytesDecoder+Next, NewDecoder+Next with buffer sizes 1..4096}; 2 of 3 cases use the SAME parser (Parse/ParseString/Write) or decoder (3 more Next calls) once more after the first input ended, whatever its outcome, and that second use must return without panic or hang; oracle = no panic, no hang (watchdog), Next loop <= len+2 calls, TotalAlloc <= 64KiB+buf+64*len, ParseString leaves its argument intact, and inputs the reference decoder classifies as 'needs more input' must end in an error other than io.EOF at every end-aware entry point; deterministic part: every prefix (incl. empty and full) of a fixed set of valid documents and every hostile constant x all 6 entry points; non-trivial = at least one event delivered or input >= 2 bytes; distinct by case hash; scaling probes (deterministic): 21 single-construct document families (runs of backslashes, escapes, digits, whitespace, nesting, members, no-ops, long strings/keys/byte strings ...) at 30 KB and 120 KB fed byte-wise through Write, through ParseReader in 3-byte reads and through a pull decoder with a 3-byte buffer; a violation needs more than 1 s of process CPU time for the larger input AND more than 8x the CPU time of the smaller one",
 		New:   func() any { return &C03Case{} },
 		Draw:  drawC03,
 		Check: checkC03,
